@@ -56,10 +56,13 @@ def run_multi(fedjax, sizes, bs, k, variant, chain, via_fd=False, bad=0, bad_kin
       fd = fedjax.InMemoryFederatedData(cds)
       for f in bat.CHAINS[chain]:
         fd = fd.preprocess_batch(f)
-      it = fedjax.padded_batch_federated_data(fd, hp)
+      # (hyper-parameters as an object, or an object overridden by keywords)
+      it = (fedjax.padded_batch_federated_data(fd, hp) if (bs + k) % 2 else
+            fedjax.padded_batch_federated_data(fd, fedjax.PaddedBatchHParams(batch_size=bs + 3, num_batch_size_buckets=k + 1), batch_size=bs, num_batch_size_buckets=k))
     else:
       src = (d for d in dss) if as_gen else dss
-      it = fedjax.padded_batch_client_datasets(src, hp)
+      it = (fedjax.padded_batch_client_datasets(src, hp) if (bs + k) % 2 else
+            fedjax.padded_batch_client_datasets(src, fedjax.PaddedBatchHParams(batch_size=bs + 2, num_batch_size_buckets=k + 2), batch_size=bs, num_batch_size_buckets=k))
     for b in it:
       ids, mask, pz, ok = bat.check_batch(b, ref)
       events.append({'e': 'Batch', 'ids': ids, 'mask': mask, 'padzero': pz, 'feat_ok': ok})
@@ -311,6 +314,11 @@ def run(ctx):
     #  every emitted id must be an example of the dataset)
     ph.append({'e': 'Fact', 'name': 'OnlyDatasetExamples', 'about': key, 'holds': set(flat) <= set(range(1, total + 1))})
     ph.append({'e': 'Fact', 'name': 'AllBatchesFull', 'about': key, 'holds': all(len(x) == bs for x in a)})
+    # the stream repeats: several passes can be drawn, whatever the buffer sizes (1 included), and over them every example
+    # is used about equally often
+    want_n = 3 * ((total + bs - 1) // bs) + 2
+    long_run = [[int(v) for v in x['id']] for x in itertools.islice(fdm.shuffle_repeat_batch_federated_data(fd, bs, cb, eb, seed), want_n)]
+    ph.append({'e': 'Fact', 'name': 'StreamRepeats', 'about': f'{key}: {len(long_run)} of {want_n} batches', 'holds': len(long_run) == want_n})
     ctx.case(key=('srb', tuple(sizes), bs, cb, eb, seed), nontrivial=total > bs)
   bsc = dict(MaxL=0, MaxB=1, AllPerms=False, DrainAll=True)
   verdicts, _ = vtraces.validate_batch(ctx, 'BufShuffleTrace', strs, bsc, 'BS')
